@@ -25,7 +25,7 @@ TRUSTED, not proved: `HalfAddLaws` for IEEE `f32`/`f64` on `ok := moderate` — 
 (`check_HalfAddLaws_*`), no counterexample; see the header of `Props/C01Weighted.lean`.  PROVED for
 exact arithmetic (`halfAddLaws_of_fieldLaws`).
 
-NOT proved: the same for Ward on floats (not reducible under rounding; bound measured by the oracle).
+Ward (reducible since the second `fix:` commit of the crate, from `OrderLaws` alone): `Props/C14Ward.lean`.
 -/
 import Kodama.Props.C14
 import Kodama.Props.C12Weighted
